@@ -24,7 +24,7 @@ const BINDINGS: [(&str, &str); 9] = [
     ("for _, NAME in next, {} do\nBODY\nend\n", "generic-for-2"),
 ];
 
-const USES: [(&str, &str); 14] = [
+const USES: [(&str, &str); 24] = [
     ("local _ = NAME\n", "read"),
     ("local _ = NAME.floor\n", "field"),
     ("local _ = NAME.a.b\n", "deep-field"),
@@ -39,6 +39,16 @@ const USES: [(&str, &str); 14] = [
     ("NAME(1, nil)\n", "call-nil-arg"),
     ("print(NAME(2))\n", "nested-argument"),
     ("local _, NAME.pi = 1, 2\nNAME.huge, _ = 1, 2\n", "multiple-assign"),
+    ("show { NAME.floor }\n", "table-call-argument"),
+    ("show { k = NAME.getn, [NAME.pi] = NAME.floor(1.5) }\n", "table-call-argument-keys"),
+    ("local _ = { NAME.floor, NAME.getn({}) }\n", "table-constructor"),
+    ("show(t[NAME.pi], -NAME.pi, NAME.pi + 1, not NAME.getn)\n", "operands"),
+    ("obj:method(NAME.floor, NAME.getn({}))\n", "method-arguments"),
+    ("local _ = (NAME).floor\n", "parenthesised"),
+    ("show \"s\"\nshow(NAME.floor \"x\")\n", "string-call"),
+    ("while NAME.getn({}) do break end\n", "loop-condition"),
+    ("for _ = NAME.pi, NAME.floor(2.5) do end\n", "for-bounds"),
+    ("show(function() return NAME.floor(1.5), NAME.getn end)\n", "closure-body"),
 ];
 
 /// scope-boundary wrappers for open bindings: (text, the use is inside the binding's scope)
